@@ -746,7 +746,7 @@ func planC05(prop string, seed uint64, tier string, idx int) *Plan {
 			if k.Store != "mem" && g.r.chance(30) {
 				g.add(Op{K: "restart"})
 				g.add(Op{K: "retained"})
-			} else if gr := k.grace().Milliseconds(); natural && gr > 0 && gr <= 60000 && g.r.chance(50) {
+			} else if gr := k.grace().Milliseconds(); natural && gr > 0 && gr <= 60000 && gr <= 100*k.freq().Milliseconds() && g.r.chance(50) {
 				// an upload that takes longer than the grace period (its pieces keep the session alive): the blob is as old as
 				// its completion, not as its session
 				sz := g.p.Objs[extra].Size
